@@ -58,9 +58,9 @@ func (h *Handler6) findOrCreateRouter(mac net.HardwareAddr, ip netip.Addr) (rout
 
 func (h *Handler6) FindRouter(ip netip.Addr) Router {
 	h.Mutex.Lock()
-	r := h.LANRouters[ip]
-	h.Mutex.Unlock()
-	if r != nil {
+	defer h.Mutex.Unlock()
+	// copy under the lock: ProcessPacket updates the router's fields under it
+	if r := h.LANRouters[ip]; r != nil {
 		return *r
 	}
 	return Router{}
